@@ -5,6 +5,7 @@ func init() {
 		ID:    "C12",
 		Title: "Go data passed to a render is visible in the template with the same structure",
 		Rules: []string{
+			"R-LITERAL: the identifier alphabet (names of fields and keys reachable by dot)",
 			"R-KINDS (literal keys): the object a string literal evaluates to holds the text as written (no escaping at evaluation), so that a key is looked up under its name",
 			"R-UTF8 (names): every slice of a string in the evaluator's own functions has bounds on character boundaries (the first-letter fallback of field names)",
 			"R-SHARED-RW: no package-level variable is both written and read on the render paths (state kept between calls: a shared environment for data-less renders, a cache of converted data or parsed programs)",
@@ -17,6 +18,7 @@ func init() {
 		NotDecided:  "TODO",
 		Assumptions: trustedBase,
 		Run: func(m *Model, s *Sink) {
+			m.RunLiteral(s, "R-LITERAL")                                     // a field name such as Col9 is one identifier
 			m.RunLiteralKey(s, "R-KINDS")                                    // the name in m["..."] reaches the lookup as written
 			m.RunNameCuts(s, "R-UTF8")                                       // the lower-cased-first-letter fallback works on letters, not bytes
 			m.RunSharedWrites(s, "R-SHARED-RW", m.Roots().Render, "history") // what one render leaves behind must not reach the next (a shared environment for data-less calls, a cache of bound data, a memo of parsed strings)
